@@ -356,6 +356,13 @@ def run_case(case, rec):
         st2c = tertiary_v2.Structure(parser_v2.parse_cif_atoms(cif_text))
         readings["v2-pdb"], objs["v2-pdb"] = v2_map(st2p)
         readings["v2-cif"], objs["v2-cif"] = v2_map(st2c)
+        if int(core.chash(desc)[2:4], 16) % 3 == 1:
+            # the PDB text converted to mmCIF by the library's own writer (which derives label identifiers from the PDB
+            # ones), read by both readers: two more readings
+            conv = parser_v2.write_cif(parser_v2.parse_pdb_atoms(pdb_text))
+            readings["v1-cif-converted-by-the-library"], objs["v1-cif-converted-by-the-library"] = v1_map(emit.read_text(conv, ".cif"))
+            readings["v2-cif-converted-by-the-library"], objs["v2-cif-converted-by-the-library"] = v2_map(tertiary_v2.Structure(parser_v2.parse_cif_atoms(conv)))
+            rec.count("note:converted-by-the-library-readings")
         if not any(r["icode"] for r in rows) and int(core.chash(desc)[2:4], 16) % 3 == 0:
             # the same table as an mmCIF file with label identifiers only (the auth_* items are optional): chain =
             # label_asym_id, number = label_seq_id - two more readings, judged like the others
